@@ -1,6 +1,48 @@
-(* Properties_C17.v -- theorems for property C17 (metadata codecs). *)
+(* Properties_C17.v -- theorems for property C17 (metadata codecs: version edits,
+   write batches, internal keys / separators, file names).  Statements only; the
+   proofs are in EditProofs.v, BatchProofs.v, IKeyProofs.v, FilenameProofs.v. *)
 From LCDB Require Import Base Varint Batch IKey Edit Filename.
+From LCDB Require Import EditProofs BatchProofs IKeyProofs FilenameProofs.
+From Coq Require Import Sorted.
 Local Open Scope N_scope.
+
+(* ---- version edits ---- *)
+Theorem C17_edit_import_export : forall e,
+  wf_edit e = true -> edit_import (edit_export e) = Some (edit_canon e).
+Proof. exact edit_import_export. Qed.
+Print Assumptions C17_edit_import_export.
+
+Theorem C17_edit_canon_id : forall e,
+  StronglySorted (fun a b => fe_compare a b = Lt) (e_deleted_files e) -> edit_canon e = e.
+Proof. exact edit_canon_id. Qed.
+Print Assumptions C17_edit_canon_id.
+
+Theorem C17_edit_canon_idem : forall e, edit_canon (edit_canon e) = edit_canon e.
+Proof. exact edit_canon_idem. Qed.
+Print Assumptions C17_edit_canon_idem.
+
+Theorem C17_edit_roundtrip_export : forall e,
+  wf_edit e = true -> edit_roundtrip (edit_export e) = Some (edit_export e).
+Proof. exact edit_roundtrip_export. Qed.
+Print Assumptions C17_edit_roundtrip_export.
+
+Theorem C17_edit_remove_file_sorted : forall e l n,
+  StronglySorted (fun a b => fe_compare a b = Lt) (e_deleted_files e) ->
+  StronglySorted (fun a b => fe_compare a b = Lt) (e_deleted_files (edit_remove_file e l n)).
+Proof. exact edit_remove_file_sorted. Qed.
+Print Assumptions C17_edit_remove_file_sorted.
+
+Theorem C17_edit_import_bad_tag : forall tag rest,
+  tag < 128 -> tag <> 1 -> tag <> 2 -> tag <> 3 -> tag <> 4 -> tag <> 5 -> tag <> 6 ->
+  tag <> 7 -> tag <> 9 ->
+  edit_import (tag :: rest) = None.
+Proof. exact edit_import_bad_tag. Qed.
+Print Assumptions C17_edit_import_bad_tag.
+
+Theorem C17_level_read_bad_level : forall lvl rest,
+  EDIT_NUM_LEVELS <= lvl -> lvl < 4294967296 -> level_read (varint32_write lvl ++ rest) = None.
+Proof. exact level_read_bad_level. Qed.
+Print Assumptions C17_level_read_bad_level.
 
 Theorem C17_standard_tags :
   TAG_COMPARATOR = 1 /\ TAG_LOG_NUMBER = 2 /\ TAG_NEXT_FILE_NUMBER = 3 /\ TAG_LAST_SEQUENCE = 4 /\
@@ -8,3 +50,129 @@ Theorem C17_standard_tags :
   EDIT_NUM_LEVELS = 7.
 Proof. repeat split; reflexivity. Qed.
 Print Assumptions C17_standard_tags.
+
+(* ---- write batches ---- *)
+Theorem C17_batch_iterate_build : forall seq ops,
+  wf_ops ops = true -> batch_iterate (batch_build seq ops) = (ops, BOk).
+Proof. exact batch_iterate_build. Qed.
+Print Assumptions C17_batch_iterate_build.
+
+Theorem C17_batch_build_layout : forall seq ops,
+  batch_build seq ops =
+  le64 (seq mod 18446744073709551616) ++ le32 (nlen ops mod 4294967296) ++ enc_ops ops.
+Proof. exact batch_build_layout. Qed.
+Print Assumptions C17_batch_build_layout.
+
+Theorem C17_batch_sequence_build : forall seq ops,
+  seq < 18446744073709551616 -> batch_sequence (batch_build seq ops) = seq.
+Proof. exact batch_sequence_build. Qed.
+Print Assumptions C17_batch_sequence_build.
+
+Theorem C17_batch_count_build : forall seq ops,
+  nlen ops < 4294967296 -> batch_count (batch_build seq ops) = nlen ops.
+Proof. exact batch_count_build. Qed.
+Print Assumptions C17_batch_count_build.
+
+Theorem C17_batch_append_build : forall s1 s2 o1 o2,
+  batch_append (batch_build s1 o1) (batch_build s2 o2) = batch_build s1 (o1 ++ o2).
+Proof. exact batch_append_build. Qed.
+Print Assumptions C17_batch_append_build.
+
+Theorem C17_batch_append_iterate : forall a b oa ob,
+  batch_iterate a = (oa, BOk) -> batch_iterate b = (ob, BOk) ->
+  nlen oa + nlen ob < 4294967296 ->
+  batch_iterate (batch_append a b) = (oa ++ ob, BOk) /\
+  batch_count (batch_append a b) = batch_count a + batch_count b /\
+  batch_sequence (batch_append a b) = batch_sequence a.
+Proof. exact batch_append_iterate. Qed.
+Print Assumptions C17_batch_append_iterate.
+
+Theorem C17_batch_iterate_ok_count : forall b ops,
+  batch_iterate b = (ops, BOk) -> nlen ops = batch_count b.
+Proof. exact batch_iterate_ok_count. Qed.
+Print Assumptions C17_batch_iterate_ok_count.
+
+Theorem C17_batch_iterate_count_mismatch : forall seq ops c,
+  wf_ops ops = true -> c mod 4294967296 <> nlen ops ->
+  batch_iterate (batch_set_count (batch_build seq ops) c) = (ops, BWrongCount).
+Proof. exact batch_iterate_build_wrong_count. Qed.
+Print Assumptions C17_batch_iterate_count_mismatch.
+
+(* ---- internal keys ---- *)
+Theorem C17_ikey_parse_encode : forall k s t,
+  s < 2 ^ 56 -> t <= 1 -> ikey_parse (ikey_encode k s t) = Some (k, s, t).
+Proof. exact ikey_parse_encode. Qed.
+Print Assumptions C17_ikey_parse_encode.
+
+Theorem C17_ikey_compare_strict_total_order :
+  (forall a, ikey_compare a a <> Lt) /\
+  (forall a b c, ikey_compare a b = Lt -> ikey_compare b c = Lt -> ikey_compare a c = Lt) /\
+  (forall a b, ikey_compare a b = Lt -> ikey_compare b a <> Lt) /\
+  (forall a b, wf_ikey a = true -> wf_ikey b = true ->
+               ikey_compare a b = Lt \/ a = b \/ ikey_compare b a = Lt).
+Proof. exact ikey_compare_strict_total_order. Qed.
+Print Assumptions C17_ikey_compare_strict_total_order.
+
+Theorem C17_ikey_compare_antisym : forall a b,
+  ikey_compare a b = CompOpp (ikey_compare b a).
+Proof. exact ikey_compare_antisym. Qed.
+Print Assumptions C17_ikey_compare_antisym.
+
+Theorem C17_ikey_compare_encode : forall u1 s1 t1 u2 s2 t2,
+  s1 < 2 ^ 56 -> s2 < 2 ^ 56 -> t1 <= 1 -> t2 <= 1 ->
+  ikey_compare (ikey_encode u1 s1 t1) (ikey_encode u2 s2 t2) =
+  match bytes_compare u1 u2 with
+  | Eq => match N.compare s2 s1 with Eq => N.compare t2 t1 | c => c end
+  | c => c
+  end.
+Proof. exact ikey_compare_encode. Qed.
+Print Assumptions C17_ikey_compare_encode.
+
+Theorem C17_lkey_internal_key : forall u s,
+  lkey_internal_key u s = ikey_encode u s VALTYPE_SEEK /\ lkey_user_key u s = u.
+Proof. intros u s. split; [exact (lkey_internal_key_eq u s)|exact (lkey_user_key_eq u s)]. Qed.
+Print Assumptions C17_lkey_internal_key.
+
+(* ---- separators and successors ---- *)
+Theorem C17_shortest_separator_contract : forall a b,
+  bytes_compare a b = Lt ->
+  bytes_leb a (shortest_separator a b) = true /\
+  bytes_ltb (shortest_separator a b) b = true.
+Proof. exact shortest_separator_contract. Qed.
+Print Assumptions C17_shortest_separator_contract.
+
+Theorem C17_short_successor_contract : forall a, bytes_leb a (short_successor a) = true.
+Proof. exact short_successor_contract. Qed.
+Print Assumptions C17_short_successor_contract.
+
+Theorem C17_ikc_shortest_separator_contract : forall a b,
+  ikey_compare a b = Lt ->
+  ikey_compare a (ikc_shortest_separator a b) <> Gt /\
+  ikey_compare (ikc_shortest_separator a b) b = Lt.
+Proof. exact ikc_shortest_separator_contract. Qed.
+Print Assumptions C17_ikc_shortest_separator_contract.
+
+Theorem C17_ikc_short_successor_contract : forall a,
+  ikey_compare a (ikc_short_successor a) <> Gt.
+Proof. exact ikc_short_successor_contract. Qed.
+Print Assumptions C17_ikc_short_successor_contract.
+
+Theorem C17_ikc_shortest_separator_length : forall a b,
+  (8 <= length a)%nat ->
+  (8 <= length (ikc_shortest_separator a b) <= length a)%nat.
+Proof. exact ikc_shortest_separator_length. Qed.
+Print Assumptions C17_ikc_shortest_separator_length.
+
+(* ---- file names ---- *)
+Theorem C17_parse_filename_make : forall kind n,
+  n < 2 ^ 64 ->
+  parse_filename (make_name kind n) = Some (kind_type kind, if kind <? 5 then n else 0).
+Proof. exact parse_filename_make. Qed.
+Print Assumptions C17_parse_filename_make.
+
+Theorem C17_decode_int_encode_int : forall x pad rest,
+  x < 18446744073709551616 ->
+  match rest with [] => True | c :: _ => c < 48 \/ 57 < c end ->
+  decode_int (encode_int x pad ++ rest) = Some (x, rest).
+Proof. exact decode_int_encode_int. Qed.
+Print Assumptions C17_decode_int_encode_int.
